@@ -276,6 +276,78 @@ static int set_value(MPT_STRUCT(node) *n, const char *val)
 	return 0;
 }
 
+/* ------------------------------------------------------------------ n pmerge: mpt_parse_node into a node that has children */
+#define PM_MAX 64
+struct pm_item { const char *name; MPT_STRUCT(node) *n; int kids[PM_MAX], nkids; };
+static struct pm_item pm[4 * PM_MAX];
+static int npm;
+static char pm_names[PM_MAX][64], pm_vals[PM_MAX][64];
+static int pm_depth[PM_MAX], pm_hasval[PM_MAX], pm_n;
+static int pm_new_item(const char *name, MPT_STRUCT(node) *n)
+{
+	if (npm >= 4 * PM_MAX) return -1;
+	pm[npm].name = name; pm[npm].n = n; pm[npm].nkids = 0;
+	return npm++;
+}
+/* shadow of an existing sibling list */
+static int pm_shadow(MPT_STRUCT(node) *l, int *out)
+{
+	int k = 0;
+	for (; l && k < PM_MAX; l = l->next) {
+		const char *id = l->ident._len ? mpt_identifier_data(&l->ident) : 0;
+		int it = pm_new_item(id, l);
+		if (it < 0) return -1;
+		if ((pm[it].nkids = pm_shadow(l->children, pm[it].kids)) < 0) return -1;
+		out[k++] = it;
+	}
+	return k;
+}
+/* shadow of the described forest: entries from *pos on with depth d */
+static int pm_desc(int *pos, int d, int *out)
+{
+	int k = 0;
+	while (*pos < pm_n && pm_depth[*pos] == d && k < PM_MAX) {
+		int it = pm_new_item(pm_names[*pos], 0);
+		if (it < 0) return -1;
+		++*pos;
+		if ((pm[it].nkids = pm_desc(pos, d + 1, pm[it].kids)) < 0) return -1;
+		out[k++] = it;
+	}
+	return k;
+}
+static int pm_same(const char *a, const char *b) { return (!a || !b) ? a == b : !strcmp(a, b); }
+/* what mpt_node_move does with the names: source elements with a namesake stay (and are cleared afterwards) */
+static void pm_merge(int *src, int nsrc, int *dst, int *ndst)
+{
+	for (int i = 0; i < nsrc; i++) {
+		struct pm_item *s = &pm[src[i]];
+		int j, hit = -1;
+		for (j = 0; j < *ndst; j++) if (pm_same(pm[dst[j]].name, s->name)) { hit = dst[j]; break; }
+		if (hit < 0) { if (*ndst < PM_MAX) dst[(*ndst)++] = src[i]; continue; }
+		if (s->n) mark_dead(s->n, 0);
+		if (s->nkids) {
+			if (pm[hit].nkids) pm_merge(s->kids, s->nkids, pm[hit].kids, &pm[hit].nkids);
+			else { memcpy(pm[hit].kids, s->kids, sizeof(int) * s->nkids); pm[hit].nkids = s->nkids; }
+		}
+	}
+}
+/* nodes that survive inside a dead element were marked dead with it: revive what ended up below the destination */
+static void pm_revive(int *l, int n)
+{
+	for (int i = 0; i < n; i++) {
+		struct pm_item *it = &pm[l[i]];
+		if (it->n) { int t = tok_of(it->n); if (t >= 0) tab[t].alive = 1; }
+		pm_revive(it->kids, it->nkids);
+	}
+}
+static void pm_register(MPT_STRUCT(node) *l)
+{
+	for (; l; l = l->next) {
+		if (tok_of(l) < 0) reg(l);
+		pm_register(l->children);
+	}
+}
+
 int main(void)
 {
 	static char line[1 << 16];
@@ -331,6 +403,55 @@ int main(void)
 				continue;
 			}
 			result_n("ok", reg(a));
+		}
+		else if (!strcmp(op, "pmerge") && drv_nw == 4) {
+			/* n pmerge <x> <desc>: mpt_parse_node(x, text of <desc>) WITHOUT detaching the children of x first: what is read
+			 * is merged with them (mpt_node_move of the old children into the new list, the rest of the old ones cleared).
+			 * <desc> = entries "depth:name[=value]" joined by ';' in pre-order ("-" = nothing) */
+			static char text[8192];
+			MPT_STRUCT(parser_context) parse = MPT_PARSER_INIT;
+			FILE *fd;
+			char *save = 0, *tok;
+			int i, open = 0, top[PM_MAX], ntop, old[PM_MAX], nold, posd = 0, bad = 0;
+			size_t tl = 0;
+			if (get_tok(drv_w[2], &a) < 0) { puts("bad-op"); continue; }
+			pm_n = 0; npm = 0;
+			if (strcmp(drv_w[3], "-")) for (tok = strtok_r(drv_w[3], ";", &save); tok; tok = strtok_r(0, ";", &save)) {
+				char *c = strchr(tok, ':'), *e;
+				if (!c || pm_n >= PM_MAX) { bad = 1; break; }
+				pm_depth[pm_n] = atoi(tok);
+				e = strchr(c + 1, '=');
+				if (e) *e = 0;
+				if (strlen(c + 1) > 60 || (e && strlen(e + 1) > 60)) { bad = 1; break; }
+				strcpy(pm_names[pm_n], c + 1);
+				pm_hasval[pm_n] = e != 0;
+				strcpy(pm_vals[pm_n], e ? e + 1 : "");
+				++pm_n;
+			}
+			if (bad) { puts("bad-op"); continue; }
+			/* the text: sections for entries without value, options for the others */
+			for (i = 0; i < pm_n; i++) {
+				while (open > pm_depth[i]) { tl += snprintf(text + tl, sizeof(text) - tl, "}\n"); --open; }
+				if (pm_hasval[i]) tl += snprintf(text + tl, sizeof(text) - tl, "%s = %s\n", pm_names[i], pm_vals[i]);
+				else { tl += snprintf(text + tl, sizeof(text) - tl, "%s {\n", pm_names[i]); ++open; }
+			}
+			while (open > 0) { tl += snprintf(text + tl, sizeof(text) - tl, "}\n"); --open; }
+			text[tl] = 0;
+			if (!(fd = tmpfile())) { puts("bad-op"); continue; }
+			fputs(text, fd); rewind(fd);
+			/* which of the old nodes go: the merge on the names, made here independently of the library */
+			nold = pm_shadow(a->children, old);
+			ntop = pm_desc(&posd, 0, top);
+			if (nold < 0 || ntop < 0 || posd != pm_n) { fclose(fd); puts("bad-op"); continue; }
+			if (ntop) { pm_merge(old, nold, top, &ntop); pm_revive(top, ntop); }
+			parse.src.getc = (int (*)()) mpt_getchar_stdio;
+			parse.src.arg  = fd;
+			mpt_parse_accept(&parse.name, "ns");
+			pos = mpt_parse_node(a, &parse, 0);
+			fclose(fd);
+			if (pos < 0) { snprintf(broken, sizeof(broken), "BROKEN:parse-refused@%d,%d", pos, 0); sticky = 1; }
+			else pm_register(a->children);
+			result_n(pos < 0 ? "refused" : "ok", pos < 0 ? pos : 0);
 		}
 		else if (!strcmp(op, "nparse") && drv_nw == 5 && (!strcmp(drv_w[4], "empty") || !strcmp(drv_w[4], "broken"))) {
 			/* mpt_node_parse(node, <empty or syntactically broken input>, default format, <limits>): a refused call
